@@ -199,3 +199,23 @@ Theorem c17_periodic_no_deadlock : forall s, reach P init_periodic s -> stat (th
   exists t pick s', PerInv.is_asleep (stat (thr s t)) = false /\ exec P s (LStep t pick) = Some s'.
 Proof. exact Per.periodic_no_deadlock. Qed.
 Print Assumptions c17_periodic_no_deadlock.
+
+(* ---- no lost wake-up in the event loop (scenario init_ss, where the loop thread now BLOCKS in poll(): the
+   instruction at pc 7 of the loop thread sleeps while the wake-up pipe is empty and may time out), every schedule:
+   whenever callbacks are queued in m_incoming_callbacks, either the wake-up pipe holds a byte, or the loop thread
+   is at a point from which it looks at the queue without sleeping in poll() first (between a successful poll
+   and the swap - DrainAndExecute drains the pipe BEFORE it swaps -, between its own push and pipe write, or in
+   the destructor's drain), or some producer is between its push and its pipe write. *)
+Theorem c17_ss_no_lost_wakeup : forall lims rs k s, reach P (init_ss lims rs k) s -> que s INQ <> [] ->
+  var s PIPE <> 0 \/ SsInv.safe0 (pc (thr s 0)) = true \/
+  (exists i, i < length lims /\ stat (thr s (1 + i)) = Ready /\ ExecInv.inl (pc (thr s (1 + i))) [3;4] = true).
+Proof. exact Ss.ss_no_lost_wakeup. Qed.
+Print Assumptions c17_ss_no_lost_wakeup.
+
+(* so the loop thread never sleeps in poll() with an empty pipe and a non-empty queue unless a producer's
+   wake-up byte is still on its way *)
+Theorem c17_ss_poll_not_lost : forall lims rs k s, reach P (init_ss lims rs k) s ->
+  que s INQ <> [] -> var s PIPE = 0 -> pc (thr s 0) = 7 ->
+  exists i, i < length lims /\ stat (thr s (1 + i)) = Ready /\ ExecInv.inl (pc (thr s (1 + i))) [3;4] = true.
+Proof. exact Ss.ss_poll_not_lost. Qed.
+Print Assumptions c17_ss_poll_not_lost.
